@@ -603,7 +603,7 @@ def run_replay(pid, vh, scratch, path):
     if obj.get("kind") == "wrap":
         from . import wrapcheck
         res, crashes = wrapcheck.run_cases(vh, scratch, [obj["case"]], workers=1)
-        bad = crashes or [m for r in res for m in (r.get("mismatches") or []) if m.get("c07") or m.get("kind") == "panic"]
+        bad = crashes or [m for r in res for m in (r.get("mismatches") or []) if m.get("c07") or m.get("kind") in ("panic", "leak")]
         print("replay:", "reproduced" if bad else "not reproduced")
         if bad:
             print("VIOLATION property=%s replay=%s  (reproduced)" % (pid, path))
